@@ -1,5 +1,5 @@
 From Coq Require Extraction ExtrOcamlBasic.
-From SK Require Import Base.Prelude Base.F64 Spec.Bins Store.Any Stat.Summary Sketch.Sketch Wire.Wire Wire.Grammar Wire.GrammarRaw Wire.Proto Data.Dataset Data.DatasetSum Wire.ProtoEdit Wire.ProtoB Sketch.SketchSum Mapping.Glue Extract.Instances Sketch.ChangeMappingG.
+From SK Require Import Base.Prelude Base.F64 Spec.Bins Store.Any Stat.Summary Sketch.Sketch Wire.Wire Wire.Grammar Wire.GrammarRaw Wire.Proto Data.Dataset Data.DatasetSum Wire.ProtoEdit Wire.ProtoB Sketch.SketchSum Mapping.Glue Extract.Instances Extract.Instances2 Sketch.ChangeMappingG.
 From SK Require Import Codec.Codec.
 From SK Require Codec.Varfloat.
 Extraction Language OCaml.
@@ -15,7 +15,7 @@ Extraction "model.ml"
   (* statistics *) su_new su_add su_merge su_get_sum su_reweight su_rescale su_from_data su_count su_sum su_min su_max
   (* grammar *) ref_decode ref_decode_raw ref_parse serialize sem
   (* sketch *) sk_new xk_add sk_count sk_is_empty xk_quantile sk_max sk_min sk_foreach sk_merge sk_clear sk_copy sk_reweight
-              plain_is_empty plain_count map_equals within_tolerance sk_get_sum_f64 sk_from_data
+              plain_is_empty plain_count map_equals within_tolerance sk_get_sum_f64 sk_from_data xk_quantiles
   (* wire *) xk_enc xk_dec_into ds_of_sketch ds_fresh sketch_of_ds enc_mapping dec_mapping
   (* mappings *) with_gamma with_accuracy gm_index gm_lower gm_value gm_accuracy
   (* paginated loops *) xp_min_go xp_max_go xp_key_at_rank_go
